@@ -52,6 +52,11 @@ type Thread struct {
 	// functions).
 	goFunctionCallDepth int
 
+	// Number of errors passed to the message handler in the runs of
+	// continuations currently in progress in the thread (see
+	// RunContinuation).
+	errContCount int
+
 	DebugHooks
 
 	closeStack // Stack of pending to-be-closed values
@@ -88,7 +93,11 @@ var errErrorInMessageHandler = StringValue("error in error handling")
 // error.
 func (t *Thread) RunContinuation(c Cont) (err error) {
 	var next Cont
-	var errContCount = 0
+	// Errors are counted across nested runs: a message handler that fails in
+	// a nested run (e.g. in a metamethod called synchronously) would otherwise
+	// be called again for its own error at each level, without bound.
+	errContCount := t.errContCount
+	defer func() { t.errContCount = errContCount }()
 	// A nested run (e.g. a metamethod called synchronously) must not leave its
 	// last continuation behind as the thread's current continuation.
 	prevCont := t.currentCont
@@ -106,9 +115,9 @@ func (t *Thread) RunContinuation(c Cont) (err error) {
 				return rtErr
 			}
 			err = rtErr.AddContext(c, -1)
-			errContCount++
+			t.errContCount++
 			if t.messageHandler != nil {
-				if errContCount > maxErrorsInMessageHandler {
+				if t.errContCount > maxErrorsInMessageHandler {
 					return newHandledError(errErrorInMessageHandler)
 				}
 				next = t.messageHandler.Continuation(t, newMessageHandlerCont(c))
